@@ -29,6 +29,23 @@ class Adapter:
     def export(self, tier):
         return None
 
+    def extra(self, run, tier):
+        """two- and three-pin instances are too large for breadth-first search: TLC random walks
+        (-simulate) check the same per-transition assertions and invariants along each behaviour"""
+        from . import tlc
+        if tier != "thorough":
+            return
+        num, depth = 120, 50
+        res = tlc.run("Gpio_MC", MC.format(fam="pins2").replace("VIEW View\n", ""), simulate=num, depth=depth,
+                      workers=8, timeout=1500, seed=common.seed() + 5)
+        tlc.require_ok(res, "Gpio_MC -simulate")
+        if res.errors:
+            raise common.MachineryError("Gpio specification violates C16 on a random walk: " + res.raw[-2000:])
+        import re
+        m = re.search(r"The number of states generated: (\d+)", res.raw)
+        res.generated = int(m.group(1)) if m else 0
+        run.add_tlc(res, f"Gpio_MC -simulate, 2-3 pins, {num} walks/worker of depth {depth}")
+
     def sizes(self, tier):
         return dict(random_traces=320, length=500) if tier == "thorough" else dict(random_traces=80, length=350)
 
